@@ -59,6 +59,49 @@ def run(ctx):
     ctx.rule(uniform_post, f)
     ctx.rule(bitreader, f)
     ctx.rule(stream_header, f)
+    ctx.rule(stateless_decoder)
+
+
+def stateless_decoder(ctx, R="R-C13-bitreader"):
+    """What a stream decodes to depends on the stream alone: the decoder keeps nothing between calls and never writes to the
+    module's look-up tables.  A table row taken with a scalar index (`ULAW_OUTWARD[bitshift]`) is a view: editing it in place, or
+    memoising results in a module-level container, makes a later stream (another sample type sharing the table) decode differently."""
+    from .c20 import no_shared_state
+    prog = ctx.prog
+    m = prog.module("_sphere")
+    tables = {name for name, vals in m.assigns.items() if any(isinstance(v, ast.Call) and (prog.qualify(m, v.func) or "") in ("numpy.array", "numpy.asarray") for v in vals)}
+    n = 0
+    for fi in [x for x in prog.functions.values() if x.module is m and x.parent is None and x.cls is None]:
+        n += 1
+        no_shared_state(ctx, R, fi, "_sphere.%s" % fi.name)
+        # views of module tables that are written through
+        views = {}
+        for x in fi.body_nodes():
+            if isinstance(x, ast.Assign) and len(x.targets) == 1 and isinstance(x.targets[0], ast.Name):
+                v = x.value
+                src = v.value if isinstance(v, ast.Subscript) else v
+                if isinstance(src, ast.Name) and (src.id in tables or src.id in views):
+                    idx = v.slice if isinstance(v, ast.Subscript) else None
+                    scalar_idx = idx is None or isinstance(idx, (ast.Constant, ast.Slice)) or (isinstance(idx, ast.Name) and idx.id in fi.all_param_names() and not any(
+                        isinstance(y, ast.Subscript) and astq.is_name(y.value, idx.id) for y in fi.body_nodes()))
+                    if scalar_idx:
+                        views[x.targets[0].id] = src.id if src.id in tables else views[src.id]
+        for x in fi.body_nodes():
+            tgt = None
+            if isinstance(x, ast.Assign):
+                for t in x.targets:
+                    if isinstance(t, ast.Subscript) and isinstance(t.value, ast.Name) and t.value.id in views:
+                        tgt = t
+            elif isinstance(x, ast.AugAssign) and ((isinstance(x.target, ast.Subscript) and isinstance(x.target.value, ast.Name) and x.target.value.id in views)
+                                                   or (isinstance(x.target, ast.Name) and x.target.id in views)):
+                tgt = x.target
+            if tgt is not None:
+                nm = tgt.value.id if isinstance(tgt, ast.Subscript) else tgt.id
+                ctx.bad(R, fi, x, "`%s` writes through `%s`, a view of the module-level table %s: the table is changed for every later call (other sample types and "
+                        "bit shifts that share it decode differently afterwards)" % (astq.text(x)[:60], nm, views[nm]),
+                        "the decoder never writes to the module's look-up tables", robust=True)
+    ctx.floor(R + "/decoder-functions", n, 5)
+    ctx.ok(R, m.rel, "the decoder keeps no state between calls and never writes to the module's look-up tables", "%d functions, tables %s" % (n, sorted(tables)))
 
 
 # ------------------------------------------------------------------ constants
